@@ -303,52 +303,101 @@ def cl_angular(op, a, b, xs):
     raise ValueError(op)
 
 
-def cl_scalar_copy(kind, args, k):
-    """copy independence; multiplication / division by a number."""
+def _make_obj(kind, args):
     from abel.tools import polynomial as pm
-    def make():
-        if kind == 'Polynomial':
-            r, rmin, rmax, c, r0, s, red = args
-            return pm.Polynomial(np.asarray(r, float), rmin, rmax, np.asarray(c, float), r0, s, red)
-        if kind == 'PiecewisePolynomial':
-            r, ranges = args
-            return pm.PiecewisePolynomial(np.asarray(r, float),
-                                          [(a, b, np.asarray(c, float), r0, s, red) for (a, b, c, r0, s, red) in ranges])
-        if kind == 'SPolynomial':
-            r, cos, rmin, rmax, c, r0, s = args
-            return pm.SPolynomial(np.asarray(r, float), np.asarray(cos, float), rmin, rmax, np.asarray(c, float), r0, s)
-        raise ValueError(kind)
-    P = make()
-    f0, a0 = P.func.copy(), P.abel.copy()
+    if kind == 'Polynomial':
+        r, rmin, rmax, c, r0, s, red = args
+        return pm.Polynomial(np.asarray(r, float), rmin, rmax, np.asarray(c, float), r0, s, red)
+    if kind == 'PiecewisePolynomial':
+        r, ranges = args
+        return pm.PiecewisePolynomial(np.asarray(r, float),
+                                      [(a, b, np.asarray(c, float), r0, s, red) for (a, b, c, r0, s, red) in ranges])
+    if kind == 'SPolynomial':
+        r, cos, rmin, rmax, c, r0, s = args
+        return pm.SPolynomial(np.asarray(r, float), np.asarray(cos, float), rmin, rmax, np.asarray(c, float), r0, s)
+    if kind == 'PiecewiseSPolynomial':
+        r, cos, ranges = args
+        return pm.PiecewiseSPolynomial(np.asarray(r, float), np.asarray(cos, float),
+                                       [(a, b, np.asarray(c, float), r0, s) for (a, b, c, r0, s) in ranges])
+    raise ValueError(kind)
+
+
+def _parts(P):
+    """whole object and every piece: list of (label, func, abel)"""
+    out = [('object', P.func, P.abel)]
+    for i, p in enumerate(getattr(P, 'p', [])):
+        out.append(('piece %d' % i, p.func, p.abel))
+    return out
+
+
+SCALAR_OPS = ['mul', 'rmul', 'imul', 'div', 'idiv', 'roundtrip', 'chain']
+
+
+def apply_scalar_op(P, op, a):
+    """-> (result object, factor the result must carry, whether the operand must stay unchanged)"""
+    if op == 'mul':
+        return P * a, a, True
+    if op == 'rmul':
+        return a * P, a, True
+    if op == 'div':
+        return P / a, 1.0 / a, True
+    if op == 'imul':
+        Q = P.copy(); Q *= a
+        return Q, a, True
+    if op == 'idiv':
+        Q = P.copy(); Q /= a
+        return Q, 1.0 / a, True
+    if op == 'roundtrip':
+        Q = P.copy(); Q /= a; Q *= a
+        return Q, 1.0, True
+    if op == 'chain':
+        Q = (2.0 * P) / a
+        Q *= a
+        return Q / 2.0, 1.0, True
+    raise ValueError(op)
+
+
+def cl_scalar_copy(kind, args, a, op='all'):
+    """copy independence; every scalar operator the classes define (*, num *, *=, /, /=, round trips): the whole
+    object AND every piece carry the factor; the operand is unchanged; the pieces still add up to the object."""
+    P = _make_obj(kind, args)
+    ref = [(lab, f.copy(), ab.copy()) for lab, f, ab in _parts(P)]
+    # --- copies
     Q = P.copy()
-    if Q.func is P.func or Q.abel is P.abel or np.shares_memory(Q.func, P.func) or np.shares_memory(Q.abel, P.abel):
-        return False, 'copy shares memory with the original'
-    Q.func += 1.0; Q.abel -= 2.0
-    if not (np.array_equal(P.func, f0) and np.array_equal(P.abel, a0)):
-        return False, 'modifying a copy changes the original'
-    if kind == 'PiecewisePolynomial':
-        Q = P.copy()
-        for q, p in zip(Q.p, P.p):
-            if np.shares_memory(q.func, p.func) or np.shares_memory(q.abel, p.abel):
-                return False, 'pieces of a copy share memory'
-    close = lambda x, y: np.allclose(x, y, rtol=1e-14, atol=0)
-    for nm, Qk, kk in (('P*k', P * k, k), ('k*P', k * P, k), ('P/k', P / k, 1 / k)):
-        if not (close(Qk.func, kk * f0) and close(Qk.abel, kk * a0)):
-            return False, nm + ' is not the scaled function/transform'
-        if not (np.array_equal(P.func, f0) and np.array_equal(P.abel, a0)):
-            return False, nm + ' modified its operand'
-        if type(Qk) is not type(P):
-            return False, nm + ' changes the type'
-    Q = P.copy(); Q *= k
-    if not (close(Q.func, k * f0) and close(Q.abel, k * a0)):
-        return False, 'P *= k'
-    if kind == 'PiecewisePolynomial':
-        for q, p in zip(Q.p, P.p):
-            if not (close(q.func, k * p.func) and close(q.abel, k * p.abel)):
-                return False, 'P *= k does not scale the pieces'
-    Q = P.copy(); Q /= k
-    if not (close(Q.func, f0 / k) and close(Q.abel, a0 / k)):
-        return False, 'P /= k'
+    for (lab, f, ab), (_, f0, a0) in zip(_parts(Q), _parts(P)):
+        if f is f0 or ab is a0 or np.shares_memory(f, f0) or np.shares_memory(ab, a0):
+            return False, 'copy: %s shares memory with the original' % lab
+    if len(_parts(Q)) != len(ref) or type(Q) is not type(P):
+        return False, 'copy: type or number of pieces'
+    for lab, f, ab in _parts(Q):
+        f += 1.0; ab -= 2.0
+    for (lab, f, ab), (_, f0, a0) in zip(_parts(P), ref):
+        if not (np.array_equal(f, f0) and np.array_equal(ab, a0)):
+            return False, 'modifying a copy changes the original (%s)' % lab
+    # --- scalar operators
+    close = lambda x, y: x.shape == y.shape and np.allclose(x, y, rtol=4e-15, atol=0)
+    for o in (SCALAR_OPS if op == 'all' else [op]):
+        R, k, keep = apply_scalar_op(P, o, a)
+        if type(R) is not type(P):
+            return False, '%s changes the type' % o
+        parts = _parts(R)
+        if len(parts) != len(ref):
+            return False, '%s: number of pieces' % o
+        for (lab, f, ab), (_, f0, a0) in zip(parts, ref):
+            if not (close(f, k * f0) and close(ab, k * a0)):
+                return False, '%s: %s is not scaled by %r' % (o, lab, k)
+        for (lab, f, ab), (_, f0, a0) in zip(_parts(P), ref):
+            if not (np.array_equal(f, f0) and np.array_equal(ab, a0)):
+                return False, '%s modified its operand (%s)' % (o, lab)
+        for (lab, f, ab), (_, f1, a1) in zip(parts, _parts(P)):
+            if np.shares_memory(f, f1) or np.shares_memory(ab, a1):
+                return False, '%s: result shares memory with the operand (%s)' % (o, lab)
+        if len(parts) > 1:       # the pieces add up to the object
+            sf = sum(f for _, f, _ in parts[1:]); sa = sum(ab for _, _, ab in parts[1:])
+            scale_f = sum(np.abs(f) for _, f, _ in parts[1:]) + 1e-300
+            scale_a = sum(np.abs(ab) for _, _, ab in parts[1:]) + 1e-300
+            if np.any(np.abs(sf - parts[0][1]) > 1e-13 * scale_f) or np.any(np.abs(sa - parts[0][2]) > 1e-13 * scale_a):
+                return False, '%s: the pieces do not add up to the object' % o
     return True, ''
 
 
